@@ -25,7 +25,8 @@ const (
 	verifPTargetName
 	verifPCtxRegex
 	verifPCtxLocal
-	verifPUnnamed // a parameter written without a name
+	verifPUnnamed         // a parameter written without a name
+	verifPPartOfConverter // an interface type of which the converter interface is an implementation (not the converter itself)
 	verifPKinds
 )
 
@@ -38,7 +39,12 @@ const (
 	verifRKinds
 )
 
-var verifConvIface = verifNamed("Converter", verifUserPkg, types.NewInterfaceType(nil, nil).Complete())
+var verifConvMethod = types.NewFunc(token.NoPos, verifUserPkg, "Convert", types.NewSignatureType(nil, nil, nil, nil, nil, false))
+
+var verifConvIface = verifNamed("Converter", verifUserPkg, types.NewInterfaceType([]*types.Func{verifConvMethod}, nil).Complete())
+
+// an interface with a subset of the converter's methods: the converter implements it, it is not the converter
+var verifPartIface = verifNamed("Renderer", verifUserPkg, types.NewInterfaceType([]*types.Func{types.NewFunc(token.NoPos, verifUserPkg, "Convert", types.NewSignatureType(nil, nil, nil, nil, nil, false))}, nil).Complete())
 
 func verifParamType(i int) types.Type {
 	return verifNamed([]string{"P0", "P1", "P2", "P3"}[i], verifUserPkg, types.NewStruct(nil, nil))
@@ -73,6 +79,8 @@ func VerifHarness_C14_Parse() {
 			name = "local" + plainNames[i]
 		case verifPUnnamed:
 			name = ""
+		case verifPPartOfConverter:
+			t = verifPartIface
 		}
 		params = append(params, types.NewParam(token.NoPos, verifUserPkg, name, t))
 	}
